@@ -131,4 +131,13 @@ PROPS["C19"] = {
     "assumptions": ["waits are 0 or 1 ms in probe runs"],
 }
 
+PROPS["C12"] = {
+    "parts": [{"family": "pool", "admits": "PoolCorr.admits_pool", "model_obs": None, "timeout": 600},
+              {"family": "poolstress", "admits": "PoolCorr.spec_C12_stress", "model_obs": None, "race": True, "timeout": 900}],
+    "level_text": "Theorems for every schedule of any number of submitting goroutines with any operation lists (Submit / Wait / Close, any number of rounds), any number of workers and queue capacity: C12_conservation (every task for which wg.Add ran is in exactly one place - waiting to be sent, queued, running, finished; the counter counts the unfinished ones), C12_exactly_once, C12_barrier (Wait can return only at counter 0, and then every task added so far by any submitter has finished), C12_blocks_not_drops (a full queue disables the send), C12_close (after Close every idle worker can leave). Correspondence: gated single-submitter operation lists on the real pool (sizes -1..16, task counts beyond the queue, repeated rounds, Wait on idle pool / with tasks in flight) whose log of quiescent running-sets, task ends and Wait returns must equal the model's; race-detector stress runs with 1..4 submitters judged by counters (exactly once, barrier with plain writes, running <= workers, no worker goroutine after Close).",
+    "level_note": _T + " The orderings inside Submit (Add before send) and inside the worker's select cannot be forced on the code; they are proved on the model and only sampled by the stress runs. The happens-before edge Done -> Wait is sync.WaitGroup's (assumed, exercised by the race detector). Goroutine termination after Close is observed, not proved, on the code side.",
+    "explanation": "conservation invariant with Permutation for all schedules; gated operation lists; race-detector stress",
+    "assumptions": ["task identities are pairwise distinct"],
+}
+
 NOT_APPLICABLE = {}
